@@ -29,6 +29,8 @@ struct Spec {
     ended: bool,
     /// a misuse error was returned (non-Finish after Finish): afterwards only universal invariants
     undetermined: bool,
+    /// the previous call was a Finish that returned Ok (output full)
+    prev_finish_ok: bool,
     history: Vec<String>,
 }
 
@@ -104,6 +106,8 @@ impl<'a> Checker<'a> {
             return None;
         }
         let first_finish_now = a.flush == MZFlush::Finish && !spec.ever_finish;
+        let prev_finish_ok = spec.prev_finish_ok;
+        spec.prev_finish_ok = a.flush == MZFlush::Finish && r.status == Ok(MZStatus::Ok);
         if a.flush == MZFlush::Finish {
             spec.ever_finish = true;
         }
@@ -117,6 +121,14 @@ impl<'a> Checker<'a> {
                 // to exactly the consumed input, checked at the end of the history)
                 if first_finish_now && r.bytes_consumed != n_in {
                     return Some(("C14:stream-end-with-input-left".into(), format!("StreamEnd in the first Finish call but only {} of {} offered bytes consumed", r.bytes_consumed, n_in)));
+                }
+                // stream-end belongs to the call that delivers the last byte: a Finish call that
+                // finds nothing left to consume or write means the previous one (Ok) already had
+                if prev_finish_ok && !progress {
+                    return Some(("C14:stream-end-one-call-late".into(), "the previous Finish call returned Ok although it delivered the last output byte; StreamEnd only came on a call that consumed and wrote nothing".into()));
+                }
+                if prev_finish_ok {
+                    rep.count("stream_end_after_finish_ok_with_progress");
                 }
                 spec.ended = true;
             }
@@ -176,7 +188,7 @@ impl<'a> Checker<'a> {
 }
 
 fn new_spec() -> Spec {
-    Spec { pos: 0, out: Vec::new(), ever_finish: false, ended: false, undetermined: false, history: Vec::new() }
+    Spec { pos: 0, out: Vec::new(), ever_finish: false, ended: false, undetermined: false, prev_finish_ok: false, history: Vec::new() }
 }
 
 fn witness(rep: &mut Report, plain: &[u8], cfg: Config, seq: &[Action], v: (String, String)) {
